@@ -159,7 +159,9 @@ def inputs():
         Func('foo_rec_add', 'void', [('FooRec*', 'rec'), ('FooPt*', 'pt'), ('int', 'n')]),
         Func('foo_pt_length', 'double', [('const FooPt*', 'pt')]),
         Func('foo_init', 'void', [('FooOpaque*', 'o'), ('FooAnon*', 'an')]),
-    ], files=[A, B, A, A, B, B, A, B, A, B, A], blocks=[
+        Func('foo_pt_scale', 'void', [('struct _FooPt*', 'pt'), ('double', 'factor')]),
+        Func('foo_rec_peek', 'const struct _FooRec*', [('struct _FooRec*', 'rec')]),
+    ], files=[A, B, A, A, B, B, A, B, A, B, A, B, A], blocks=[
         B_('foo_rec_new', [('a', '', 'start')], ret=('transfer full', 'a rec')),
         B_('foo_rec_copy', [('rec', '', 'a rec')], ret=('transfer full', 'copy'), tags=[('Since', '1.2')]),
         B_('foo_rec_add', [('rec', '', 'a rec'), ('pt', 'nullable', 'a point'), ('n', '', 'count')]),
